@@ -16,7 +16,7 @@ if os.path.exists(hp):
 
 checks = []
 for pid in ids:
-    if pid not in PROPS:
+    if pid not in PROPS or PROPS[pid].get('pending'):
         continue
     c = PROPS[pid]
     checks.append(dict(
@@ -31,7 +31,7 @@ for pid in ids:
         technique=c.get("technique", "Coq theorems over a Gallina model + in-Coq (vm_compute) correspondence with the real code"),
     ))
 NA_REASONS = {}
-na = [dict(property_id=pid, reason=NA_REASONS.get(pid, "check not built yet (work in progress)")) for pid in ids if pid not in PROPS]
+na = [dict(property_id=pid, reason=NA_REASONS.get(pid, "check not built yet (work in progress)")) for pid in ids if pid not in PROPS or PROPS[pid].get("pending")]
 m = dict(
     version=1,
     setup_cmd="bin/setup",
